@@ -295,6 +295,11 @@ func runC12Cell(t *testing.T, l lat, rep *Report, boundaryOnly bool) (fails []c1
 				sizes = append(sizes, i)
 			}
 			sizes = append(sizes, 255, 256, 1399, 1400, 9000)
+			if thorough() {
+				for i := 49; i <= 300; i++ {
+					sizes = append(sizes, i)
+				}
+			}
 		}
 		for _, n := range sizes {
 			for _, comp := range []bool{false, true} {
